@@ -60,6 +60,12 @@ NEEDS = {
  "C26b-pelt-prune-without-penalty-slack": "_poisson_changepoints with penalty > 0 and >= 3 observations whose optimum passes through a changepoint that was not the running argmin",
  "C27b-forced-pass-skips-sample-sample-edges": "a sample-to-sample edge (internal / ancient sample above a sample) whose child is raised or whose length is below min_branch_length",
  "C29b-isclose-gap-not-split": "genomic coordinates >= ~1e5 and a gap in a node's ancestry narrower than 1e-5 x position",
+ "C24b-block-start-carried-across-gap": "an unphased individual whose leaf nodes are isolated over an interior interval (deleted interval / missing data): the next block's span includes the gap",
+ "C15b-mixture-cache-key-without-total-tips": "two nodes with byte-identical (samples below, span) records (2-5 of them) living in trees with different numbers of samples",
+ "C01b-skip-constrain-when-already-ordered": "posterior means already ordered on every edge AND a branch shorter than min_branch_length (large min_branch_length)",
+ "C02b-nan-posterior-rows-lose-metadata": "variational_gamma, a mutation above a root (NaN posterior) that already carries other metadata fields",
+ "C06b-eps-added-to-poisson-mean": "maximization with eps rescaled by a large time factor c (eps*c comparable with dt*mu*span)",
+ "C12b-log-poisson-inline-zero-times-neg-inf": "maximization, logarithmic space, eps exactly 0 and a non-sample child whose parent edge has no mutations",
 }
 for d in sorted(glob.glob(os.path.join(ROOT, "seeded", "*"))):
     name = os.path.basename(d)
